@@ -91,30 +91,12 @@ pub fn perform_with(c: &Call, buf: Option<&[u8]>) -> String {
         Call::Decode { bytes, opts } => {
             let bytes: &[u8] = buf.unwrap_or(&bytes[..]);
             let mut r = SliceReader::from(bytes);
-            let res = match opts {
-                Some(o) => Message::<&[u8]>::try_read_validate(&mut r, crate_opts(Opts::from_index(*o))),
-                None => Message::<&[u8]>::try_read(&mut r),
-            };
-            let rem = r.len();
-            match res {
-                Ok(m) => format!("Ok({}) rem={rem}", serde_json::to_string(&from_crate_msg(&m)).unwrap()),
-                Err(e) => format!("Err({:?}) rem={rem}", e.iter().map(err_kind).collect::<Vec<_>>()),
-            }
+            render_decode(&mut r, *opts)
         }
         Call::Greedy { bytes } => {
             let bytes: &[u8] = buf.unwrap_or(&bytes[..]);
             let mut r = SliceReader::from(bytes);
-            let v = AVP::try_read_greedy::<&[u8]>(&mut r);
-            format!(
-                "{:?} rem={}",
-                v.iter()
-                    .map(|x| match x {
-                        Ok(a) => serde_json::to_string(&from_crate_avp(a)).unwrap(),
-                        Err(e) => format!("{:?}", err_kind(e)),
-                    })
-                    .collect::<Vec<_>>(),
-                r.len()
-            )
+            render_greedy(&mut r)
         }
         Call::EncodeMsg(m) => match to_crate_msg(m, &cal_bits) {
             Some(cm) => {
@@ -169,6 +151,169 @@ pub fn perform_with(c: &Call, buf: Option<&[u8]>) -> String {
         Ok(s) => s,
         // a panic is C01/C07/C13's business; for purity it only has to be
         // the same outcome every time (site without line/column numbers)
+        Err(c) => format!("PANIC@{}", panic_site(&c)),
+    }
+}
+
+fn render_decode<'a, R: Reader<&'a [u8]>>(r: &mut R, opts: Option<u8>) -> String {
+    let res = match opts {
+        Some(o) => Message::<&[u8]>::try_read_validate(r, crate_opts(Opts::from_index(o))),
+        None => Message::<&[u8]>::try_read(r),
+    };
+    let rem = r.len();
+    match res {
+        Ok(m) => format!("Ok({}) rem={rem}", serde_json::to_string(&from_crate_msg(&m)).unwrap()),
+        Err(e) => format!("Err({:?}) rem={rem}", e.iter().map(err_kind).collect::<Vec<_>>()),
+    }
+}
+
+fn render_greedy<'a, R: Reader<&'a [u8]>>(r: &mut R) -> String {
+    let v = AVP::try_read_greedy::<&[u8]>(r);
+    format!(
+        "{:?} rem={}",
+        v.iter()
+            .map(|x| match x {
+                Ok(a) => serde_json::to_string(&from_crate_avp(a)).unwrap(),
+                Err(e) => format!("{:?}", err_kind(e)),
+            })
+            .collect::<Vec<_>>(),
+        r.len()
+    )
+}
+
+/// A reader / writer pair that calls `hook` on every trait method: under a
+/// controlled scheduler the hook is a scheduling point, which puts thread
+/// switches *inside* a codec call (the seams are where a real caller's
+/// reader or writer may block or yield).
+pub struct HookReader<'a, 'h> {
+    data: &'a [u8],
+    hook: &'h dyn Fn(),
+}
+
+impl<'a, 'h> Reader<&'a [u8]> for HookReader<'a, 'h> {
+    fn is_empty(&self) -> bool {
+        (self.hook)();
+        self.data.is_empty()
+    }
+    fn len(&self) -> usize {
+        (self.hook)();
+        self.data.len()
+    }
+    fn subreader(&mut self, length: usize) -> Self {
+        (self.hook)();
+        let (h, t) = self.data.split_at(length);
+        self.data = t;
+        HookReader { data: h, hook: self.hook }
+    }
+    fn bytes(&mut self, length: usize) -> Option<&'a [u8]> {
+        (self.hook)();
+        if length > self.data.len() {
+            return None;
+        }
+        let (h, t) = self.data.split_at(length);
+        self.data = t;
+        Some(h)
+    }
+    unsafe fn read_u8_unchecked(&mut self) -> u8 {
+        (self.hook)();
+        let v = self.data[0];
+        self.data = &self.data[1..];
+        v
+    }
+    unsafe fn read_u16_be_unchecked(&mut self) -> u16 {
+        (self.hook)();
+        let v = u16::from_be_bytes([self.data[0], self.data[1]]);
+        self.data = &self.data[2..];
+        v
+    }
+    unsafe fn read_u32_be_unchecked(&mut self) -> u32 {
+        (self.hook)();
+        let v = u32::from_be_bytes([self.data[0], self.data[1], self.data[2], self.data[3]]);
+        self.data = &self.data[4..];
+        v
+    }
+    unsafe fn read_u64_be_unchecked(&mut self) -> u64 {
+        (self.hook)();
+        let mut a = [0u8; 8];
+        a.copy_from_slice(&self.data[..8]);
+        self.data = &self.data[8..];
+        u64::from_be_bytes(a)
+    }
+    fn skip_bytes(&mut self, length: usize) {
+        (self.hook)();
+        self.data = &self.data[length..];
+    }
+}
+
+pub struct HookWriter<'h> {
+    pub data: Vec<u8>,
+    hook: &'h dyn Fn(),
+}
+
+impl<'h> rl2tp::common::Writer for HookWriter<'h> {
+    fn is_empty(&self) -> bool {
+        self.data.is_empty()
+    }
+    fn len(&self) -> usize {
+        (self.hook)();
+        self.data.len()
+    }
+    fn write_bytes(&mut self, bytes: &[u8]) {
+        (self.hook)();
+        self.data.extend_from_slice(bytes);
+    }
+    fn write_bytes_at(&mut self, bytes: &[u8], offset: usize) {
+        (self.hook)();
+        self.data[offset..offset + bytes.len()].copy_from_slice(bytes);
+    }
+    fn write_u8(&mut self, value: u8) {
+        (self.hook)();
+        self.data.push(value);
+    }
+    fn write_u16_be(&mut self, value: u16) {
+        (self.hook)();
+        self.data.extend_from_slice(&value.to_be_bytes());
+    }
+    fn write_u32_be(&mut self, value: u32) {
+        (self.hook)();
+        self.data.extend_from_slice(&value.to_be_bytes());
+    }
+    fn write_u64_be(&mut self, value: u64) {
+        (self.hook)();
+        self.data.extend_from_slice(&value.to_be_bytes());
+    }
+}
+
+/// As `perform`, with the decoders reading through a `HookReader` and the
+/// encoders writing through a `HookWriter`; same rendering as `perform`.
+pub fn perform_hooked(c: &Call, hook: &dyn Fn()) -> String {
+    let r = guard(|| match c {
+        Call::Decode { bytes, opts } => {
+            let mut r = HookReader { data: &bytes[..], hook };
+            Some(render_decode(&mut r, *opts))
+        }
+        Call::Greedy { bytes } => {
+            let mut r = HookReader { data: &bytes[..], hook };
+            Some(render_greedy(&mut r))
+        }
+        Call::EncodeMsg(m) => to_crate_msg(m, &cal_bits).map(|cm| {
+            let mut w = HookWriter { data: Vec::new(), hook };
+            cm.write(&mut w);
+            to_hex(&w.data)
+        }),
+        Call::EncodeAvp(a) => to_crate_avp(a, &cal_bits).map(|ca| {
+            let mut w = HookWriter { data: Vec::new(), hook };
+            ca.write(&mut w);
+            to_hex(&w.data)
+        }),
+        _ => None,
+    });
+    match r {
+        Ok(Some(s)) => s,
+        Ok(None) => {
+            hook();
+            perform(c)
+        }
         Err(c) => format!("PANIC@{}", panic_site(&c)),
     }
 }
@@ -235,6 +380,21 @@ pub fn gen_calls(rng: &mut Rng, sw: &Swarm, n: usize) -> Vec<Call> {
                 for _ in 0..rng.urange(1, 4) {
                     b.extend_from_slice(&good_record(rng, sw, true).bytes);
                 }
+                if rng.chance(1, 6) {
+                    // a long error report: 17-40 undecodable records
+                    let mut recs: Vec<Vec<u8>> = vec![msgtype_record(rng)];
+                    let mut tiny = sw.clone();
+                    tiny.size = SizeRegime::Tiny;
+                    for _ in 0..rng.urange(17, 40) {
+                        let kind = *rng.pick(&NONTERMINAL);
+                        recs.push(bad_record(rng, &tiny, kind).bytes);
+                    }
+                    let refs: Vec<&[u8]> = recs.iter().map(|r| &r[..]).collect();
+                    out.push(Call::Decode {
+                        bytes: control_of(rng, &refs),
+                        opts: Some(rng.below(8) as u8),
+                    });
+                }
                 Call::Greedy { bytes: b }
             }
             7 => Call::EncodeMsg(if rng.bool() { gen_control(rng, sw, 400) } else { gen_data(rng, sw) }),
@@ -274,6 +434,40 @@ pub fn gen_calls(rng: &mut Rng, sw: &Swarm, n: usize) -> Vec<Call> {
             },
         };
         out.push(c);
+    }
+    // a family of hide / reveal calls whose secrets are related to each
+    // other (prefix, extension, one bit, same length): what a cache keyed
+    // too coarsely would confuse
+    if rng.chance(1, 2) {
+        let base_len = *rng.pick(&[16usize, 63, 64, 65, 70, 100, 128, 200]);
+        let base = rng.bytes(base_len);
+        let mut sw2 = sw.clone();
+        sw2.size = SizeRegime::Typical;
+        let mut secrets: Vec<Vec<u8>> = vec![base.clone()];
+        let mut shorter = base.clone();
+        shorter.pop();
+        secrets.push(shorter);
+        let mut longer = base.clone();
+        longer.push(rng.u8());
+        secrets.push(longer);
+        let mut flipped = base.clone();
+        let i = rng.usize_below(flipped.len());
+        flipped[i] ^= 1 << rng.below(8);
+        secrets.push(flipped);
+        secrets.push(base.clone());
+        rng.shuffle(&mut secrets);
+        for s in secrets {
+            let attr = *rng.pick(&[7u16, 8, 11, 26, 30]);
+            let avp = gen_avp_of(rng, &sw2, attr);
+            let rvb = rng.bytes(4);
+            let ll = rng.urange(16, 48);
+            out.push(Call::Hide {
+                avp,
+                secret: s,
+                rv: [rvb[0], rvb[1], rvb[2], rvb[3]],
+                lp: rng.bytes(ll),
+            });
+        }
     }
     out
 }
